@@ -223,6 +223,9 @@ def check_unary(res, mode, N, bl, strand, pk, only=None):
                             res.deviation("relative_interval_to_parent_location", case, lib.canon_loc(R), "zero-length", sig="ri2p-zero-nonzero")
                         elif type(R) is not _EmptyLocation and not (min(s for s, e in bl) <= R.start <= max(e for s, e in bl)):
                             res.deviation("relative_interval_to_parent_location", case, lib.canon_loc(R), "zero-length inside span", sig="ri2p-zero-outside")
+                        elif type(R) is not _EmptyLocation and lib.loc_strand(R) != M.strand_rel(strand, rho):
+                            # an empty sub-interval that is answered with a placed zero-length location still carries the composed strand
+                            res.deviation("relative_interval_to_parent_location", case, lib.loc_strand(R), M.strand_rel(strand, rho), sig="ri2p-zero-strand")
                     elif not isinstance(o[2], (ValueError, BioCantorException)):
                         res.deviation("relative_interval_to_parent_location", case, o[1], "zero-length or documented exception", sig="ri2p-zero-internal-error")
                     continue
